@@ -1,7 +1,10 @@
 (* Run_C23.v — correspondence: evaluate Model_Rlp on the cases the harness observed on
    codec.RLP.MarshalToBytes / UnmarshalFromBytes, report differing indices. *)
-From Goloop Require Import lib.Bytes Model_Rlp.
+From Goloop Require Export lib.Bytes Model_Rlp.
 Open Scope N_scope.
+
+(* long runs of one byte in the cases files *)
+Definition rpt (n c : N) : bytes := repeat c (N.to_nat n).
 
 Inductive case :=
 (* a generated Go value v of type t: the bytes MarshalToBytes produced and the value
